@@ -234,24 +234,7 @@ var bodyFiles = map[string]*facts.BodyFile{
 				}},
 		},
 	},
-	// C15: transport/telnet.go
-	"BodiesTelnet.lean": {
-		Imports:   []string{"ScrapliModel.Telnet"},
-		Namespace: "Scrapli.Gen.Bodies.Telnet",
-		Fns: []*facts.FnSpec{
-			{Dir: "transport", Recv: "Telnet", Name: "handleControlCharResponse", Lean: "handleControlCharResponse",
-				Doc: "State: `data` = `t.initialBuf`, `replies` = the byte strings passed to `t.c.Write`, in order " +
-					"(every write is taken to succeed: it returns `len(b), nil`).",
-				State: []facts.StateVar{
-					{Key: "recv.initialBuf", Lean: "data", Ty: "bytes"},
-					{Key: "«writes to recv.c»", Lean: "replies", Ty: "list"},
-				},
-				Effects: map[string]facts.Effect{
-					"recv.c.Write": {State: "replies", ArgTy: "bytes",
-						Ret: []facts.Val{{Lean: "(Go.len %0)", Ty: "int"}, {Lean: "(none : Go.Error)", Ty: "error"}}},
-				}},
-		},
-	},
+	// C15: transport/telnet.go — see gen_c15.go (the FnSpec depends on where the source keeps ctrlBuf)
 	// C18: driver/generic/sendwithcallbacks.go
 	"BodiesCallbacks.lean": {
 		Imports:   []string{"ScrapliModel.Callbacks"},
